@@ -98,7 +98,7 @@ fn funds() -> BoxedStrategy<Funds> {
 
 fn op() -> BoxedStrategy<Op> {
     prop_oneof![
-        6 => (0u8..4, 0u8..2, gen::amount(1, 1u128 << 80), funds(), proptest::option::weighted(0.5, prop_oneof![3 => 0u8..16, 2 => 16u8..28]), proptest::option::weighted(0.6, prop_oneof![4 => 0u16..40, 2 => 170u16..400]))
+        6 => (0u8..4, prop_oneof![3 => 0u8..2, 1 => Just(2u8)], gen::amount(1, 1u128 << 80), funds(), proptest::option::weighted(0.5, prop_oneof![3 => 0u8..16, 2 => 16u8..28]), proptest::option::weighted(0.6, prop_oneof![4 => 0u16..40, 2 => 170u16..400]))
             .prop_map(|(user, asset, declared, funds, start, end)| Op::OpenFlow { user, asset, declared: Uint128::new(declared), funds, start, end, label: declared % 2 == 1 }),
         6 => (any::<u16>(), any::<bool>(), gen::amount(1, 1u128 << 70), proptest::bool::weighted(0.15), proptest::option::weighted(0.5, prop_oneof![3 => 0u16..30, 1 => 150u16..300]))
             .prop_map(|(sel, by_creator, amount, short, end_plus)| Op::ExpandFlow { sel, by_creator, amount: Uint128::new(amount), short, end_plus, by_label: sel & 0x100 != 0 }),
@@ -153,7 +153,7 @@ impl Check for FlowFunding {
         "flow_funding_history"
     }
     fn rule(&self) -> &'static str {
-        "incentive contract created through the incentive factory (cw20 or native LP), two reward assets (native + cw20), creation fee in a different native denom, a different cw20, or the same asset as reward asset 0 (fee amounts 1, 1000, random); up to 40/120 operations {open flow with exact / fee-only / short / over-paid / no funds and default or explicit start/end (incl. a start epoch in the past and > 180 epochs), expand flow (by creator or someone else, exact or short funds, optional new end; the flow named by id or by its label), close flow by creator / factory owner / stranger (likewise), open/close positions, snapshot, 1..60 new epochs with or without a snapshot in each, claim}; one case in ten starts with the directed shape {small staker claims, flow opened with a start epoch in the past, small staker claims one epoch later, a much larger staker who never claimed claims 1..5 epochs later}. Reference ledger outstanding[flow] is built only from transfers the harness observes: +tokens received by the contract on open/expand, −tokens paid on claims, and must equal (funded − claimed) read from the contract's storage after every step; the fee must arrive at the collector; the contract's balance of each reward asset covers the sum of outstanding; claims never exceed funded; closing pays exactly outstanding to the creator, removes the flow and is refused to strangers. Non-trivial: >= 1 expansion and >= 1 close of a flow after a claim paid something."
+        "incentive contract created through the incentive factory (cw20 or native LP), three reward assets (a native denom, a cw20, and the native fee denom itself, so that flows in two native denoms coexist), creation fee in a different native denom, a different cw20, or the same asset as reward asset 0 (fee amounts 1, 1000, random); up to 40/120 operations {open flow with exact / fee-only / short / over-paid / no funds and default or explicit start/end (incl. a start epoch in the past and > 180 epochs), expand flow (by creator or someone else, exact or short funds, optional new end; the flow named by id or by its label), close flow by creator / factory owner / stranger (likewise), open/close positions, snapshot, 1..60 new epochs with or without a snapshot in each, claim}; one case in ten starts with the directed shape {small staker claims, flow opened with a start epoch in the past, small staker claims one epoch later, a much larger staker who never claimed claims 1..5 epochs later}. Reference ledger outstanding[flow] is built only from transfers the harness observes: +tokens received by the contract on open/expand, −tokens paid on claims, and must equal (funded − claimed) read from the contract's storage after every step; the fee must arrive at the collector; the contract's balance of each reward asset covers the sum of outstanding; claims never exceed funded; closing pays exactly outstanding to the creator, removes the flow and is refused to strangers. Non-trivial: >= 1 expansion and >= 1 close of a flow after a claim paid something."
     }
     fn strategy(&self, tier: Tier) -> BoxedStrategy<Case> {
         let max_ops = tier.pick(40usize, 120usize);
@@ -208,11 +208,18 @@ impl Check for FlowFunding {
         let mut paid_claims = 0;
         let mut closes_after_claim = 0;
         let fee = iw.fee_amount;
+        // reward assets of this check: the world's two (a native denom and a cw20) and, third, the native
+        // fee denom "ufee" — so that flows in two different native denoms coexist and, when the creation
+        // fee is charged in "ufee", the contract holds fee-denom tokens that belong to a flow
+        let rewards: Vec<AssetInfo> = vec![iw.flow_assets[0].clone(), iw.flow_assets[1].clone(), crate::world::native("ufee")];
         for (step, op) in c.ops.iter().enumerate() {
             match op {
                 Op::OpenFlow { user, asset: ai, declared, funds, start, end, label } => {
                     let who = iw.user(*user);
-                    let fa = iw.flow_assets[(*ai % 2) as usize].clone();
+                    let fa = rewards[(*ai % 3) as usize].clone();
+                    if *ai % 3 == 2 {
+                        rec.class("open_flow_attempt_in_the_native_fee_denom");
+                    }
                     let same = fa == iw.fee_asset;
                     let declared = declared.u128();
                     // what is provided of the flow asset and of the fee asset
@@ -338,7 +345,7 @@ impl Check for FlowFunding {
                     // one expansion in eight names (and pays in) the OTHER reward asset: it must not be
                     // accepted as funding of this flow
                     let wrong_asset = sel & 0xE00 == 0xE00;
-                    let named = if wrong_asset { iw.flow_assets.iter().find(|a| **a != fa).cloned().unwrap_or(fa.clone()) } else { fa.clone() };
+                    let named = if wrong_asset { rewards.iter().find(|a| **a != fa).cloned().unwrap_or(fa.clone()) } else { fa.clone() };
                     let coins = match &named {
                         AssetInfo::NativeToken { denom } => if provided > 0 { vec![coin(provided, denom)] } else { vec![] },
                         AssetInfo::Token { .. } => {
@@ -459,14 +466,14 @@ impl Check for FlowFunding {
                 Op::Claim { user } => {
                     let who = iw.user(*user);
                     let before = iw.flows_raw();
-                    let ub: Vec<u128> = iw.flow_assets.iter().take(2).map(|a| bal(&iw, a, &who)).collect();
+                    let ub: Vec<u128> = rewards.iter().map(|a| bal(&iw, a, &who)).collect();
                     if iw.exec_inc(&who, &inc::ExecuteMsg::Claim {}, &[]).is_err() {
                         rec.class("claim_rejected");
                         continue;
                     }
                     rec.class("claim_ok");
                     let after = iw.flows_raw();
-                    let mut per_asset = [0u128; 2];
+                    let mut per_asset = [0u128; 3];
                     for f in &after {
                         let b = before.iter().find(|x| x.flow_id == f.flow_id);
                         let was = b.map(|x| x.claimed_amount.u128()).unwrap_or(0);
@@ -477,15 +484,15 @@ impl Check for FlowFunding {
                         );
                         let d = f.claimed_amount.u128() - was;
                         if d > 0 {
-                            let k = iw.flow_assets.iter().position(|a| *a == f.flow_asset.info).unwrap_or(0).min(1);
+                            let k = rewards.iter().position(|a| *a == f.flow_asset.info).ok_or_else(|| Fail::new(format!("flow {} has an unknown reward asset", f.flow_id)))?;
                             per_asset[k] += d;
                             let o = outstanding.get_mut(&f.flow_id).unwrap();
                             ensure!(*o >= d, "step {step}: flow {} paid {d} but only {o} was outstanding", f.flow_id);
                             *o -= d;
                         }
                     }
-                    for k in 0..2 {
-                        let got = bal(&iw, &iw.flow_assets[k], &who) - ub[k];
+                    for k in 0..3 {
+                        let got = bal(&iw, &rewards[k], &who) - ub[k];
                         ensure!(
                             got == per_asset[k],
                             "step {step}: claimer received {got} of reward asset {k} but the flows' claimed amounts grew by {}",
@@ -505,7 +512,7 @@ impl Check for FlowFunding {
                 flows.len(),
                 outstanding.len()
             );
-            let mut per_asset = [0u128; 2];
+            let mut per_asset = [0u128; 3];
             for f in &flows {
                 let want = *outstanding.get(&f.flow_id).ok_or_else(|| Fail::new(format!("unknown flow {}", f.flow_id)))?;
                 ensure!(
@@ -523,14 +530,14 @@ impl Check for FlowFunding {
                     f.claimed_amount,
                     outstanding_of(f)
                 );
-                let k = iw.flow_assets.iter().position(|a| *a == f.flow_asset.info).unwrap_or(0).min(1);
+                let k = rewards.iter().position(|a| *a == f.flow_asset.info).ok_or_else(|| Fail::new(format!("flow {} has an unknown reward asset", f.flow_id)))?;
                 per_asset[k] += want;
             }
-            for k in 0..2 {
-                if iw.flow_assets[k] == iw.lp {
+            for k in 0..3 {
+                if rewards[k] == iw.lp {
                     continue;
                 }
-                let b = bal(&iw, &iw.flow_assets[k], &iw.incentive);
+                let b = bal(&iw, &rewards[k], &iw.incentive);
                 ensure!(
                     b >= per_asset[k],
                     "step {step} ({op:?}): the contract holds {b} of reward asset {k} but owes {} to its flows",
